@@ -85,6 +85,9 @@ Inductive op :=
 | ORenum                               (* renum_ (prints "Undefined line" for line code 3) *)
 | ORead                                (* READ A$ : PRINT A$ (reads line code 2) *)
 | OEnterRun | OLeaveRun                (* RUN/GOTO/CONT/handler entry ; END/STOP/error/return to the prompt *)
+| ORunUser                             (* RUN of the program in memory at the interactive prompt: if lines or bytes
+                                          supplied in direct mode are part of it (tainted), they execute in run mode,
+                                          where the PEEK family is allowed, and may dump the code area *)
 | OField (last : bool) (w : fwidth).   (* OPEN "R" on the highest / another file number, FIELD with these widths,
                                           then PRINT / ASC / MID$ / INSTR of the fielded variables.  The FIELD
                                           buffer of the highest file number ends exactly at the program code and
@@ -215,6 +218,12 @@ Definition step (s : state) (o : op) : result :=
       else if memz 2 (prog s) then (s, Ok 0, Plain [2]) else (s, Err E_OUT_OF_DATA, NoObs)
   | OEnterRun => done (set_run s true)
   | OLeaveRun => done (set_run s false)
+  | ORunUser =>
+      if tainted s && memz 60 (prog s) then
+        let s1 := set_run s true in
+        if fires g_peek s1 false || fires g_get_memory s1 false then (set_run s false, Err E_IFC, NoObs)
+        else (set_run s false, Ok 0, plain (prog s))
+      else done (set_run s false)
   | OField last w =>
       match w with
       | FFit => done s
